@@ -13,7 +13,7 @@ ANCHORS = ["pyoma2.functions.gen:merge_mode_shapes", "pyoma2.functions.gen:MSF",
 REQUIRED_MONITORS = ["merge-is-repeatable", "merge@function", "merge@PoSER.synthetic", "merge@PoSER.ssi", "stats@PoSER", "roworder@flatten"]
 ALL_STATES = ["factors:generic", "factors:+-1 only", "entries:real", "entries:complex", "rov:some setup has none",
               "refs:permuted differently per setup", "nref=1", "nref>1"]
-REQUIRED_STATES = ["factors:generic", "entries:complex", "refs:permuted differently per setup"]
+REQUIRED_STATES = ["factors:generic", "entries:complex", "refs:permuted differently per setup", "global shapes of magnitude < 1e-3", "result object replaced after construction"]
 RULE = ("global matrices G (1..8 modes, real/complex), 2..5 setups, 1..4 references, 0..5 roving per setup, channel lists randomly "
         "permuted per setup, factors +-[0.05,20] per setup and mode; merged result compared with c_1k*[G_ref;G_rov1;...] (rel 1e-10), "
         "row order with flatten_sns_names; PoSER statistics with statistics.pstdev; non-trivial = at least one factor ratio "
@@ -117,6 +117,10 @@ def run_fn(ctx, rng):
     nmodes = int(rng.integers(1, 9))
     cplx = bool(rng.integers(0, 2))
     G = rng.standard_normal((ndof, nmodes)) + (1j * rng.standard_normal((ndof, nmodes)) if cplx else 0)
+    mag = float(10 ** rng.uniform(-5, 3)) if rng.random() < 0.4 else 1.0  # mass-normalised shapes in SI units are of order 1e-3..1e-5
+    G = G * mag
+    if mag < 1e-3:
+        ctx.state("global shapes of magnitude < 1e-3")
     c = factors(rng, nset, nmodes, pm1=rng.random() < 0.1)
     MS = [G[cg, :] * c[i][None, :] for i, cg in enumerate(chan_glob)]
     MS_copy = [a.copy() for a in MS]
@@ -151,6 +155,8 @@ def run_synth(ctx, rng):
     for a in range(nalg):
         cplx = bool(rng.integers(0, 2))
         G = rng.standard_normal((ndof, nmodes)) + (1j * rng.standard_normal((ndof, nmodes)) if cplx else 0)
+        if rng.random() < 0.4:
+            G = G * float(10 ** rng.uniform(-5, 3))
         c = factors(rng, nset, nmodes)
         fn_i = np.sort(rng.uniform(1, 40, nmodes))[None, :] * (1 + 0.02 * rng.standard_normal((nset, nmodes)))
         xi_i = rng.uniform(0.005, 0.05, nmodes)[None, :] * (1 + 0.2 * rng.standard_normal((nset, nmodes)))
@@ -201,6 +207,16 @@ def run_synth(ctx, rng):
                           lambda: f"{nm} mode {k}: {lab} = {g!r}, expected {e!r} (mean / population std over {nset} setups)")
         if nt:
             ctx.nontrivial(("synth", nset, nref, tuple(nrov), nmodes, a, float(np.round(c[1, 0], 6))))
+    # history: a setup is re-run after the multi-setup object was built (run_by_name stores a NEW result object); the next merge must use it
+    a0 = list(setups[0].algorithms.values())[0]
+    G0, c0, fn0, xi0 = truth[0]
+    newF = fn0[0] * 1.07
+    a0.result = type(a0.result)(**{**{k: getattr(a0.result, k) for k in type(a0.result).model_fields if getattr(a0.result, k, None) is not None}, "Fn": newF})
+    R2 = ms.merge_results()[names[0]]
+    expF = (newF + fn0[1:].sum(axis=0)) / nset
+    ctx.check(np.allclose(R2.Fn, expF, rtol=1e-12), "poser:merge_uses_results_captured_at_construction",
+              "after a setup's result object was replaced (re-run), merge_results still averages the results captured when the multi-setup object was built")
+    ctx.state("result object replaced after construction")
 
 
 def run_ssi(ctx, rng):
